@@ -69,6 +69,16 @@ Theorem C09_not_vectorized_without_vectors : forall sh par nobj nvec filt sliced
 Proof. exact not_vectorized_without_vectors. Qed.
 Print Assumptions C09_not_vectorized_without_vectors.
 
+(* vam Head inside `over ... => ( head N )`: one Head instance serves every
+   scope; each scope (any batching) yields exactly its first min(N, length)
+   values -- the count of a scope that ended short of the limit does not leak
+   into the next one.  The model is checked against the real vamop.Head on
+   generated scope sequences on every run. *)
+Theorem C09_head_scopes : forall limit scopes, (0 < limit)%nat ->
+  map nsum (head_scopes limit O scopes) = map (fun s => Nat.min limit (nsum s)) scopes.
+Proof. exact head_scopes_spec. Qed.
+Print Assumptions C09_head_scopes.
+
 (* ---- refutations of the unrestricted statement (open findings) *)
 
 (* F-C09-1: a field that is not a string in some record: panic *)
